@@ -20,10 +20,18 @@
 (*                  TRUE : it works on a local reference                   *)
 (*   StopOrder      "listener-first" (code) | "delivery-first" (regression)*)
 (*   Restart        BOOLEAN: start() again after stop() returned           *)
+(*   LateCb         BOOLEAN: a further callback (number NCb+1) is          *)
+(*                  registered with add_callback() while the listener runs *)
+(*   CbList         "live": every delivery iterates self._callbacks (code) *)
+(*                  "thread-start": the callback thread works on a copy    *)
+(*                  taken when it starts (regression)                      *)
 (***************************************************************************)
 EXTENDS Naturals, Sequences, FiniteSets, TLC
 
-CONSTANTS Senders, NInd, NCb, MaxQ, LocalQueueRef, StopOrder, Restart
+CONSTANTS Senders, NInd, NCb, MaxQ, LocalQueueRef, StopOrder, Restart,
+          LateCb, CbList
+
+NC == NCb + (IF LateCb THEN 1 ELSE 0)
 
 Count(seq, x) == Cardinality({i \in DOMAIN seq : seq[i] = x})
 IsPrefixOf(p, s) == Len(p) <= Len(s) /\ \A i \in DOMAIN p : p[i] = s[i]
@@ -41,7 +49,11 @@ variables
   acked = <<>>,        \* success responses, in the order they were written
   refused = {},        \* indications answered with a CIM error (queue full)
   dropped = {},        \* connections dropped by a crashing handler
-  log = [c \in 1..NCb |-> <<>>],   \* per-callback delivery log
+  log = [c \in 1..NC |-> <<>>],    \* per-callback delivery log
+  ncb = NCb,           \* len(self._callbacks)
+  cbSnap = NCb,        \* callbacks the thread saw when it started
+  sent = {},           \* indications whose request reached the server
+  early = {},          \* those sent before the late add_callback()
   stopRaised = FALSE,
   stopped = FALSE,
   rounds = 0;
@@ -49,14 +61,22 @@ variables
 define {
   AckedSet == {acked[i] : i \in DOMAIN acked}
   ExactlyOnce ==
-    stopped => /\ \A x \in AckedSet : \A c \in 1..NCb : Count(log[c], x) = 1
-               /\ \A x \in refused : \A c \in 1..NCb : Count(log[c], x) = 0
-  NeverTwice == \A c \in 1..NCb : \A i, j \in DOMAIN log[c] :
+    stopped => /\ \A x \in AckedSet : \A c \in 1..ncb :
+                     (c <= NCb \/ x \notin early) => Count(log[c], x) = 1
+               /\ \A x \in refused : \A c \in 1..NC : Count(log[c], x) = 0
+  NeverTwice == \A c \in 1..NC : \A i, j \in DOMAIN log[c] :
                    log[c][i] = log[c][j] => i = j
-  OnlyAcked == \A c \in 1..NCb : \A i \in DOMAIN log[c] :
+  OnlyAcked == \A c \in 1..NC : \A i \in DOMAIN log[c] :
                    log[c][i] \in AckedSet \/ \E s \in inHandler : log[c][i][1] = s
-  CallbackOrder == \A c \in 1..(NCb - 1) : IsPrefixOf(log[c + 1], log[c])
-  SenderFifo == \A c \in 1..NCb : \A i, j \in DOMAIN log[c] :
+  CallbackOrder ==
+    /\ \A c \in 1..(NCb - 1) : IsPrefixOf(log[c + 1], log[c])
+       \* the late callback sees a gap-free run of what its predecessor saw,
+       \* and is at most the current indication behind
+    /\ LateCb => \E k \in 0..Len(log[NCb]) :
+          /\ \A i \in DOMAIN log[NC] :
+                k + i <= Len(log[NCb]) /\ log[NC][i] = log[NCb][k + i]
+          /\ log[NC] # <<>> => k + Len(log[NC]) + 1 >= Len(log[NCb])
+  SenderFifo == \A c \in 1..NC : \A i, j \in DOMAIN log[c] :
                    (i < j /\ log[c][i][1] = log[c][j][1]) =>
                        log[c][i][2] < log[c][j][2]
   NoHandlerCrash == dropped = {}
@@ -92,21 +112,21 @@ M8:  if (Restart /\ rounds < 2 /\ ~stopRaised) { goto M0 };
 fair process (cb = "cb")
 variables item = <<>>, ci = 1;
 {
-C0: await cbAlive;
+C0: await cbAlive; cbSnap := ncb;
 C1: while (TRUE) {
       \* evaluating `self._ind_queue.get`
       if (~LocalQueueRef /\ ~qref) { cbExc := TRUE; goto Cx };
 C2:   either { await q # <<>>; item := Head(q); q := Tail(q); ci := 1 }
       or     { await q = <<>>;                  \* timeout -> queue.Empty
 C2e:           if (stopEv) { goto Cx } else { goto C1 } };
-C3:   while (ci <= NCb) {                       \* one step per callback
+C3:   while (ci <= (IF CbList = "live" THEN ncb ELSE cbSnap)) {                       \* one step per callback
         log[ci] := Append(log[ci], item); ci := ci + 1 };
       \* evaluating `self._ind_queue.task_done`
 C4:   if (~LocalQueueRef /\ ~qref) { cbExc := TRUE; goto Cx };
     };
 Cx: cbAlive := FALSE;
     if (Restart /\ rounds < 1) {
-Cy:   await cbAlive /\ rounds >= 1; goto C1 };
+Cy:   await cbAlive /\ rounds >= 1; cbSnap := ncb; goto C1 };
 }
 
 fair process (snd \in Senders)
@@ -114,7 +134,8 @@ variables n = 1;
 {
 S0: while (n <= NInd) {
       if (~serverUp) { goto Sx }                \* connection refused: give up
-      else { inHandler := inHandler \cup {self} };
+      else { inHandler := inHandler \cup {self};
+             sent := sent \cup {<<self, n>>} };
 H1:   if (~qref) {                              \* "queue not set up": ignored,
         skip;                                   \* but answered with success
 H1r:    acked := Append(acked, <<self, n>>);
@@ -132,22 +153,40 @@ H3:   inHandler := inHandler \ {self}; n := n + 1;
     };
 Sx: skip;
 }
+
+\* add_callback() from the application while the listener is running
+fair process (adder \in IF LateCb THEN {"adder"} ELSE {})
+{
+A0: either { await serverUp /\ ncb = NCb;
+             ncb := NCb + 1;
+             early := sent }
+    or     { skip };
+}
 } *)
-\* BEGIN TRANSLATION (chksum(pcal) = "26b1524d" /\ chksum(tla) = "caf68ea8")
+\* BEGIN TRANSLATION
 VARIABLES pc, q, qref, stopEv, cbAlive, cbExc, cbSet, serverUp, inHandler, 
-          acked, refused, dropped, log, stopRaised, stopped, rounds
+          acked, refused, dropped, log, ncb, cbSnap, sent, early, stopRaised, 
+          stopped, rounds
 
 (* define statement *)
 AckedSet == {acked[i] : i \in DOMAIN acked}
 ExactlyOnce ==
-  stopped => /\ \A x \in AckedSet : \A c \in 1..NCb : Count(log[c], x) = 1
-             /\ \A x \in refused : \A c \in 1..NCb : Count(log[c], x) = 0
-NeverTwice == \A c \in 1..NCb : \A i, j \in DOMAIN log[c] :
+  stopped => /\ \A x \in AckedSet : \A c \in 1..ncb :
+                   (c <= NCb \/ x \notin early) => Count(log[c], x) = 1
+             /\ \A x \in refused : \A c \in 1..NC : Count(log[c], x) = 0
+NeverTwice == \A c \in 1..NC : \A i, j \in DOMAIN log[c] :
                  log[c][i] = log[c][j] => i = j
-OnlyAcked == \A c \in 1..NCb : \A i \in DOMAIN log[c] :
+OnlyAcked == \A c \in 1..NC : \A i \in DOMAIN log[c] :
                  log[c][i] \in AckedSet \/ \E s \in inHandler : log[c][i][1] = s
-CallbackOrder == \A c \in 1..(NCb - 1) : IsPrefixOf(log[c + 1], log[c])
-SenderFifo == \A c \in 1..NCb : \A i, j \in DOMAIN log[c] :
+CallbackOrder ==
+  /\ \A c \in 1..(NCb - 1) : IsPrefixOf(log[c + 1], log[c])
+
+
+  /\ LateCb => \E k \in 0..Len(log[NCb]) :
+        /\ \A i \in DOMAIN log[NC] :
+              k + i <= Len(log[NCb]) /\ log[NC][i] = log[NCb][k + i]
+        /\ log[NC] # <<>> => k + Len(log[NC]) + 1 >= Len(log[NCb])
+SenderFifo == \A c \in 1..NC : \A i, j \in DOMAIN log[c] :
                  (i < j /\ log[c][i][1] = log[c][j][1]) =>
                      log[c][i][2] < log[c][j][2]
 NoHandlerCrash == dropped = {}
@@ -157,10 +196,10 @@ StopClean == stopped => /\ ~stopRaised /\ ~cbAlive /\ ~cbSet /\ ~serverUp
 VARIABLES item, ci, n
 
 vars == << pc, q, qref, stopEv, cbAlive, cbExc, cbSet, serverUp, inHandler, 
-           acked, refused, dropped, log, stopRaised, stopped, rounds, item, 
-           ci, n >>
+           acked, refused, dropped, log, ncb, cbSnap, sent, early, stopRaised, 
+           stopped, rounds, item, ci, n >>
 
-ProcSet == {"main"} \cup {"cb"} \cup (Senders)
+ProcSet == {"main"} \cup {"cb"} \cup (Senders) \cup (IF LateCb THEN {"adder"} ELSE {})
 
 Init == (* Global variables *)
         /\ q = <<>>
@@ -174,7 +213,11 @@ Init == (* Global variables *)
         /\ acked = <<>>
         /\ refused = {}
         /\ dropped = {}
-        /\ log = [c \in 1..NCb |-> <<>>]
+        /\ log = [c \in 1..NC |-> <<>>]
+        /\ ncb = NCb
+        /\ cbSnap = NCb
+        /\ sent = {}
+        /\ early = {}
         /\ stopRaised = FALSE
         /\ stopped = FALSE
         /\ rounds = 0
@@ -185,7 +228,8 @@ Init == (* Global variables *)
         /\ n = [self \in Senders |-> 1]
         /\ pc = [self \in ProcSet |-> CASE self = "main" -> "M0"
                                         [] self = "cb" -> "C0"
-                                        [] self \in Senders -> "S0"]
+                                        [] self \in Senders -> "S0"
+                                        [] self \in IF LateCb THEN {"adder"} ELSE {} -> "A0"]
 
 M0 == /\ pc["main"] = "M0"
       /\ q' = <<>>
@@ -196,67 +240,67 @@ M0 == /\ pc["main"] = "M0"
       /\ cbSet' = TRUE
       /\ stopped' = FALSE
       /\ pc' = [pc EXCEPT !["main"] = "M0b"]
-      /\ UNCHANGED << serverUp, inHandler, acked, refused, dropped, log, 
-                      stopRaised, rounds, item, ci, n >>
+      /\ UNCHANGED << serverUp, inHandler, acked, refused, dropped, log, ncb, 
+                      cbSnap, sent, early, stopRaised, rounds, item, ci, n >>
 
 M0b == /\ pc["main"] = "M0b"
        /\ serverUp' = TRUE
        /\ pc' = [pc EXCEPT !["main"] = "MS"]
        /\ UNCHANGED << q, qref, stopEv, cbAlive, cbExc, cbSet, inHandler, 
-                       acked, refused, dropped, log, stopRaised, stopped, 
-                       rounds, item, ci, n >>
+                       acked, refused, dropped, log, ncb, cbSnap, sent, early, 
+                       stopRaised, stopped, rounds, item, ci, n >>
 
 MS == /\ pc["main"] = "MS"
       /\ IF StopOrder = "listener-first"
             THEN /\ pc' = [pc EXCEPT !["main"] = "M1"]
             ELSE /\ pc' = [pc EXCEPT !["main"] = "M2"]
       /\ UNCHANGED << q, qref, stopEv, cbAlive, cbExc, cbSet, serverUp, 
-                      inHandler, acked, refused, dropped, log, stopRaised, 
-                      stopped, rounds, item, ci, n >>
+                      inHandler, acked, refused, dropped, log, ncb, cbSnap, 
+                      sent, early, stopRaised, stopped, rounds, item, ci, n >>
 
 M1 == /\ pc["main"] = "M1"
       /\ serverUp' = FALSE
       /\ pc' = [pc EXCEPT !["main"] = "M1b"]
       /\ UNCHANGED << q, qref, stopEv, cbAlive, cbExc, cbSet, inHandler, acked, 
-                      refused, dropped, log, stopRaised, stopped, rounds, item, 
-                      ci, n >>
+                      refused, dropped, log, ncb, cbSnap, sent, early, 
+                      stopRaised, stopped, rounds, item, ci, n >>
 
 M1b == /\ pc["main"] = "M1b"
        /\ inHandler = {}
        /\ pc' = [pc EXCEPT !["main"] = "M2"]
        /\ UNCHANGED << q, qref, stopEv, cbAlive, cbExc, cbSet, serverUp, 
-                       inHandler, acked, refused, dropped, log, stopRaised, 
-                       stopped, rounds, item, ci, n >>
+                       inHandler, acked, refused, dropped, log, ncb, cbSnap, 
+                       sent, early, stopRaised, stopped, rounds, item, ci, n >>
 
 M2 == /\ pc["main"] = "M2"
       /\ IF qref
             THEN /\ pc' = [pc EXCEPT !["main"] = "M2a"]
             ELSE /\ pc' = [pc EXCEPT !["main"] = "M4"]
       /\ UNCHANGED << q, qref, stopEv, cbAlive, cbExc, cbSet, serverUp, 
-                      inHandler, acked, refused, dropped, log, stopRaised, 
-                      stopped, rounds, item, ci, n >>
+                      inHandler, acked, refused, dropped, log, ncb, cbSnap, 
+                      sent, early, stopRaised, stopped, rounds, item, ci, n >>
 
 M2a == /\ pc["main"] = "M2a"
        /\ IF q # <<>>
              THEN /\ pc' = [pc EXCEPT !["main"] = "M2s"]
              ELSE /\ pc' = [pc EXCEPT !["main"] = "M3"]
        /\ UNCHANGED << q, qref, stopEv, cbAlive, cbExc, cbSet, serverUp, 
-                       inHandler, acked, refused, dropped, log, stopRaised, 
-                       stopped, rounds, item, ci, n >>
+                       inHandler, acked, refused, dropped, log, ncb, cbSnap, 
+                       sent, early, stopRaised, stopped, rounds, item, ci, n >>
 
 M2s == /\ pc["main"] = "M2s"
        /\ TRUE
        /\ pc' = [pc EXCEPT !["main"] = "M2a"]
        /\ UNCHANGED << q, qref, stopEv, cbAlive, cbExc, cbSet, serverUp, 
-                       inHandler, acked, refused, dropped, log, stopRaised, 
-                       stopped, rounds, item, ci, n >>
+                       inHandler, acked, refused, dropped, log, ncb, cbSnap, 
+                       sent, early, stopRaised, stopped, rounds, item, ci, n >>
 
 M3 == /\ pc["main"] = "M3"
       /\ qref' = FALSE
       /\ pc' = [pc EXCEPT !["main"] = "M4"]
       /\ UNCHANGED << q, stopEv, cbAlive, cbExc, cbSet, serverUp, inHandler, 
-                      acked, refused, dropped, log, stopRaised, stopped, 
-                      rounds, item, ci, n >>
+                      acked, refused, dropped, log, ncb, cbSnap, sent, early, 
+                      stopRaised, stopped, rounds, item, ci, n >>
 
 M4 == /\ pc["main"] = "M4"
       /\ IF cbSet
@@ -265,8 +309,8 @@ M4 == /\ pc["main"] = "M4"
             ELSE /\ pc' = [pc EXCEPT !["main"] = "MT"]
                  /\ UNCHANGED stopEv
       /\ UNCHANGED << q, qref, cbAlive, cbExc, cbSet, serverUp, inHandler, 
-                      acked, refused, dropped, log, stopRaised, stopped, 
-                      rounds, item, ci, n >>
+                      acked, refused, dropped, log, ncb, cbSnap, sent, early, 
+                      stopRaised, stopped, rounds, item, ci, n >>
 
 M5 == /\ pc["main"] = "M5"
       /\ ~cbAlive
@@ -277,56 +321,57 @@ M5 == /\ pc["main"] = "M5"
                  /\ UNCHANGED stopRaised
       /\ pc' = [pc EXCEPT !["main"] = "MT"]
       /\ UNCHANGED << q, qref, stopEv, cbAlive, cbExc, serverUp, inHandler, 
-                      acked, refused, dropped, log, stopped, rounds, item, ci, 
-                      n >>
+                      acked, refused, dropped, log, ncb, cbSnap, sent, early, 
+                      stopped, rounds, item, ci, n >>
 
 MT == /\ pc["main"] = "MT"
       /\ IF StopOrder # "listener-first"
             THEN /\ pc' = [pc EXCEPT !["main"] = "M7"]
             ELSE /\ pc' = [pc EXCEPT !["main"] = "M6"]
       /\ UNCHANGED << q, qref, stopEv, cbAlive, cbExc, cbSet, serverUp, 
-                      inHandler, acked, refused, dropped, log, stopRaised, 
-                      stopped, rounds, item, ci, n >>
+                      inHandler, acked, refused, dropped, log, ncb, cbSnap, 
+                      sent, early, stopRaised, stopped, rounds, item, ci, n >>
 
 M7 == /\ pc["main"] = "M7"
       /\ serverUp' = FALSE
       /\ pc' = [pc EXCEPT !["main"] = "M7b"]
       /\ UNCHANGED << q, qref, stopEv, cbAlive, cbExc, cbSet, inHandler, acked, 
-                      refused, dropped, log, stopRaised, stopped, rounds, item, 
-                      ci, n >>
+                      refused, dropped, log, ncb, cbSnap, sent, early, 
+                      stopRaised, stopped, rounds, item, ci, n >>
 
 M7b == /\ pc["main"] = "M7b"
        /\ inHandler = {}
        /\ pc' = [pc EXCEPT !["main"] = "M6"]
        /\ UNCHANGED << q, qref, stopEv, cbAlive, cbExc, cbSet, serverUp, 
-                       inHandler, acked, refused, dropped, log, stopRaised, 
-                       stopped, rounds, item, ci, n >>
+                       inHandler, acked, refused, dropped, log, ncb, cbSnap, 
+                       sent, early, stopRaised, stopped, rounds, item, ci, n >>
 
 M6 == /\ pc["main"] = "M6"
       /\ stopped' = TRUE
       /\ rounds' = rounds + 1
       /\ pc' = [pc EXCEPT !["main"] = "M8"]
       /\ UNCHANGED << q, qref, stopEv, cbAlive, cbExc, cbSet, serverUp, 
-                      inHandler, acked, refused, dropped, log, stopRaised, 
-                      item, ci, n >>
+                      inHandler, acked, refused, dropped, log, ncb, cbSnap, 
+                      sent, early, stopRaised, item, ci, n >>
 
 M8 == /\ pc["main"] = "M8"
       /\ IF Restart /\ rounds < 2 /\ ~stopRaised
             THEN /\ pc' = [pc EXCEPT !["main"] = "M0"]
             ELSE /\ pc' = [pc EXCEPT !["main"] = "Done"]
       /\ UNCHANGED << q, qref, stopEv, cbAlive, cbExc, cbSet, serverUp, 
-                      inHandler, acked, refused, dropped, log, stopRaised, 
-                      stopped, rounds, item, ci, n >>
+                      inHandler, acked, refused, dropped, log, ncb, cbSnap, 
+                      sent, early, stopRaised, stopped, rounds, item, ci, n >>
 
 main == M0 \/ M0b \/ MS \/ M1 \/ M1b \/ M2 \/ M2a \/ M2s \/ M3 \/ M4 \/ M5
            \/ MT \/ M7 \/ M7b \/ M6 \/ M8
 
 C0 == /\ pc["cb"] = "C0"
       /\ cbAlive
+      /\ cbSnap' = ncb
       /\ pc' = [pc EXCEPT !["cb"] = "C1"]
       /\ UNCHANGED << q, qref, stopEv, cbAlive, cbExc, cbSet, serverUp, 
-                      inHandler, acked, refused, dropped, log, stopRaised, 
-                      stopped, rounds, item, ci, n >>
+                      inHandler, acked, refused, dropped, log, ncb, sent, 
+                      early, stopRaised, stopped, rounds, item, ci, n >>
 
 C1 == /\ pc["cb"] = "C1"
       /\ IF ~LocalQueueRef /\ ~qref
@@ -335,8 +380,8 @@ C1 == /\ pc["cb"] = "C1"
             ELSE /\ pc' = [pc EXCEPT !["cb"] = "C2"]
                  /\ cbExc' = cbExc
       /\ UNCHANGED << q, qref, stopEv, cbAlive, cbSet, serverUp, inHandler, 
-                      acked, refused, dropped, log, stopRaised, stopped, 
-                      rounds, item, ci, n >>
+                      acked, refused, dropped, log, ncb, cbSnap, sent, early, 
+                      stopRaised, stopped, rounds, item, ci, n >>
 
 C2 == /\ pc["cb"] = "C2"
       /\ \/ /\ q # <<>>
@@ -348,27 +393,27 @@ C2 == /\ pc["cb"] = "C2"
             /\ pc' = [pc EXCEPT !["cb"] = "C2e"]
             /\ UNCHANGED <<q, item, ci>>
       /\ UNCHANGED << qref, stopEv, cbAlive, cbExc, cbSet, serverUp, inHandler, 
-                      acked, refused, dropped, log, stopRaised, stopped, 
-                      rounds, n >>
+                      acked, refused, dropped, log, ncb, cbSnap, sent, early, 
+                      stopRaised, stopped, rounds, n >>
 
 C2e == /\ pc["cb"] = "C2e"
        /\ IF stopEv
              THEN /\ pc' = [pc EXCEPT !["cb"] = "Cx"]
              ELSE /\ pc' = [pc EXCEPT !["cb"] = "C1"]
        /\ UNCHANGED << q, qref, stopEv, cbAlive, cbExc, cbSet, serverUp, 
-                       inHandler, acked, refused, dropped, log, stopRaised, 
-                       stopped, rounds, item, ci, n >>
+                       inHandler, acked, refused, dropped, log, ncb, cbSnap, 
+                       sent, early, stopRaised, stopped, rounds, item, ci, n >>
 
 C3 == /\ pc["cb"] = "C3"
-      /\ IF ci <= NCb
+      /\ IF ci <= (IF CbList = "live" THEN ncb ELSE cbSnap)
             THEN /\ log' = [log EXCEPT ![ci] = Append(log[ci], item)]
                  /\ ci' = ci + 1
                  /\ pc' = [pc EXCEPT !["cb"] = "C3"]
             ELSE /\ pc' = [pc EXCEPT !["cb"] = "C4"]
                  /\ UNCHANGED << log, ci >>
       /\ UNCHANGED << q, qref, stopEv, cbAlive, cbExc, cbSet, serverUp, 
-                      inHandler, acked, refused, dropped, stopRaised, stopped, 
-                      rounds, item, n >>
+                      inHandler, acked, refused, dropped, ncb, cbSnap, sent, 
+                      early, stopRaised, stopped, rounds, item, n >>
 
 C4 == /\ pc["cb"] = "C4"
       /\ IF ~LocalQueueRef /\ ~qref
@@ -377,8 +422,8 @@ C4 == /\ pc["cb"] = "C4"
             ELSE /\ pc' = [pc EXCEPT !["cb"] = "C1"]
                  /\ cbExc' = cbExc
       /\ UNCHANGED << q, qref, stopEv, cbAlive, cbSet, serverUp, inHandler, 
-                      acked, refused, dropped, log, stopRaised, stopped, 
-                      rounds, item, ci, n >>
+                      acked, refused, dropped, log, ncb, cbSnap, sent, early, 
+                      stopRaised, stopped, rounds, item, ci, n >>
 
 Cx == /\ pc["cb"] = "Cx"
       /\ cbAlive' = FALSE
@@ -386,15 +431,16 @@ Cx == /\ pc["cb"] = "Cx"
             THEN /\ pc' = [pc EXCEPT !["cb"] = "Cy"]
             ELSE /\ pc' = [pc EXCEPT !["cb"] = "Done"]
       /\ UNCHANGED << q, qref, stopEv, cbExc, cbSet, serverUp, inHandler, 
-                      acked, refused, dropped, log, stopRaised, stopped, 
-                      rounds, item, ci, n >>
+                      acked, refused, dropped, log, ncb, cbSnap, sent, early, 
+                      stopRaised, stopped, rounds, item, ci, n >>
 
 Cy == /\ pc["cb"] = "Cy"
       /\ cbAlive /\ rounds >= 1
+      /\ cbSnap' = ncb
       /\ pc' = [pc EXCEPT !["cb"] = "C1"]
       /\ UNCHANGED << q, qref, stopEv, cbAlive, cbExc, cbSet, serverUp, 
-                      inHandler, acked, refused, dropped, log, stopRaised, 
-                      stopped, rounds, item, ci, n >>
+                      inHandler, acked, refused, dropped, log, ncb, sent, 
+                      early, stopRaised, stopped, rounds, item, ci, n >>
 
 cb == C0 \/ C1 \/ C2 \/ C2e \/ C3 \/ C4 \/ Cx \/ Cy
 
@@ -402,14 +448,15 @@ S0(self) == /\ pc[self] = "S0"
             /\ IF n[self] <= NInd
                   THEN /\ IF ~serverUp
                              THEN /\ pc' = [pc EXCEPT ![self] = "Sx"]
-                                  /\ UNCHANGED inHandler
+                                  /\ UNCHANGED << inHandler, sent >>
                              ELSE /\ inHandler' = (inHandler \cup {self})
+                                  /\ sent' = (sent \cup {<<self, n[self]>>})
                                   /\ pc' = [pc EXCEPT ![self] = "H1"]
                   ELSE /\ pc' = [pc EXCEPT ![self] = "Sx"]
-                       /\ UNCHANGED inHandler
+                       /\ UNCHANGED << inHandler, sent >>
             /\ UNCHANGED << q, qref, stopEv, cbAlive, cbExc, cbSet, serverUp, 
-                            acked, refused, dropped, log, stopRaised, stopped, 
-                            rounds, item, ci, n >>
+                            acked, refused, dropped, log, ncb, cbSnap, early, 
+                            stopRaised, stopped, rounds, item, ci, n >>
 
 H1(self) == /\ pc[self] = "H1"
             /\ IF ~qref
@@ -417,15 +464,17 @@ H1(self) == /\ pc[self] = "H1"
                        /\ pc' = [pc EXCEPT ![self] = "H1r"]
                   ELSE /\ pc' = [pc EXCEPT ![self] = "H2"]
             /\ UNCHANGED << q, qref, stopEv, cbAlive, cbExc, cbSet, serverUp, 
-                            inHandler, acked, refused, dropped, log, 
-                            stopRaised, stopped, rounds, item, ci, n >>
+                            inHandler, acked, refused, dropped, log, ncb, 
+                            cbSnap, sent, early, stopRaised, stopped, rounds, 
+                            item, ci, n >>
 
 H1r(self) == /\ pc[self] = "H1r"
              /\ acked' = Append(acked, <<self, n[self]>>)
              /\ pc' = [pc EXCEPT ![self] = "H3"]
              /\ UNCHANGED << q, qref, stopEv, cbAlive, cbExc, cbSet, serverUp, 
-                             inHandler, refused, dropped, log, stopRaised, 
-                             stopped, rounds, item, ci, n >>
+                             inHandler, refused, dropped, log, ncb, cbSnap, 
+                             sent, early, stopRaised, stopped, rounds, item, 
+                             ci, n >>
 
 H2(self) == /\ pc[self] = "H2"
             /\ IF ~qref
@@ -439,40 +488,55 @@ H2(self) == /\ pc[self] = "H2"
                                   /\ pc' = [pc EXCEPT ![self] = "H2r"]
                        /\ UNCHANGED dropped
             /\ UNCHANGED << qref, stopEv, cbAlive, cbExc, cbSet, serverUp, 
-                            inHandler, acked, refused, log, stopRaised, 
-                            stopped, rounds, item, ci, n >>
+                            inHandler, acked, refused, log, ncb, cbSnap, sent, 
+                            early, stopRaised, stopped, rounds, item, ci, n >>
 
 H2f(self) == /\ pc[self] = "H2f"
              /\ refused' = (refused \cup {<<self, n[self]>>})
              /\ pc' = [pc EXCEPT ![self] = "H3"]
              /\ UNCHANGED << q, qref, stopEv, cbAlive, cbExc, cbSet, serverUp, 
-                             inHandler, acked, dropped, log, stopRaised, 
-                             stopped, rounds, item, ci, n >>
+                             inHandler, acked, dropped, log, ncb, cbSnap, sent, 
+                             early, stopRaised, stopped, rounds, item, ci, n >>
 
 H2r(self) == /\ pc[self] = "H2r"
              /\ acked' = Append(acked, <<self, n[self]>>)
              /\ pc' = [pc EXCEPT ![self] = "H3"]
              /\ UNCHANGED << q, qref, stopEv, cbAlive, cbExc, cbSet, serverUp, 
-                             inHandler, refused, dropped, log, stopRaised, 
-                             stopped, rounds, item, ci, n >>
+                             inHandler, refused, dropped, log, ncb, cbSnap, 
+                             sent, early, stopRaised, stopped, rounds, item, 
+                             ci, n >>
 
 H3(self) == /\ pc[self] = "H3"
             /\ inHandler' = inHandler \ {self}
             /\ n' = [n EXCEPT ![self] = n[self] + 1]
             /\ pc' = [pc EXCEPT ![self] = "S0"]
             /\ UNCHANGED << q, qref, stopEv, cbAlive, cbExc, cbSet, serverUp, 
-                            acked, refused, dropped, log, stopRaised, stopped, 
-                            rounds, item, ci >>
+                            acked, refused, dropped, log, ncb, cbSnap, sent, 
+                            early, stopRaised, stopped, rounds, item, ci >>
 
 Sx(self) == /\ pc[self] = "Sx"
             /\ TRUE
             /\ pc' = [pc EXCEPT ![self] = "Done"]
             /\ UNCHANGED << q, qref, stopEv, cbAlive, cbExc, cbSet, serverUp, 
-                            inHandler, acked, refused, dropped, log, 
-                            stopRaised, stopped, rounds, item, ci, n >>
+                            inHandler, acked, refused, dropped, log, ncb, 
+                            cbSnap, sent, early, stopRaised, stopped, rounds, 
+                            item, ci, n >>
 
 snd(self) == S0(self) \/ H1(self) \/ H1r(self) \/ H2(self) \/ H2f(self)
                 \/ H2r(self) \/ H3(self) \/ Sx(self)
+
+A0(self) == /\ pc[self] = "A0"
+            /\ \/ /\ serverUp /\ ncb = NCb
+                  /\ ncb' = NCb + 1
+                  /\ early' = sent
+               \/ /\ TRUE
+                  /\ UNCHANGED <<ncb, early>>
+            /\ pc' = [pc EXCEPT ![self] = "Done"]
+            /\ UNCHANGED << q, qref, stopEv, cbAlive, cbExc, cbSet, serverUp, 
+                            inHandler, acked, refused, dropped, log, cbSnap, 
+                            sent, stopRaised, stopped, rounds, item, ci, n >>
+
+adder(self) == A0(self)
 
 (* Allow infinite stuttering to prevent deadlock on termination. *)
 Terminating == /\ \A self \in ProcSet: pc[self] = "Done"
@@ -480,12 +544,14 @@ Terminating == /\ \A self \in ProcSet: pc[self] = "Done"
 
 Next == main \/ cb
            \/ (\E self \in Senders: snd(self))
+           \/ (\E self \in IF LateCb THEN {"adder"} ELSE {}: adder(self))
            \/ Terminating
 
 Spec == /\ Init /\ [][Next]_vars
         /\ WF_vars(main)
         /\ WF_vars(cb)
         /\ \A self \in Senders : WF_vars(snd(self))
+        /\ \A self \in IF LateCb THEN {"adder"} ELSE {} : WF_vars(adder(self))
 
 Termination == <>(\A self \in ProcSet: pc[self] = "Done")
 
